@@ -200,6 +200,10 @@ type c07Fail struct {
 }
 type c07Ping struct{}
 
+// c07Block parks the child inside its handler so that the messages sent meanwhile are handled
+// back to back in the same dispatcher turn once the gate opens
+type c07Block struct{ gate chan struct{} }
+
 type c07Child struct {
 	pre, post, mem atomic.Int64
 }
@@ -219,17 +223,21 @@ func (c *c07Child) Receive(ctx *ReceiveContext) {
 		}
 	case *c07Ping:
 		c.mem.Add(1)
+	case *c07Block:
+		<-m.gate
 	}
 }
 
 type c07Parent struct {
-	mu   sync.Mutex
-	sigs [][2]string // (sender name, reason)
-	gate chan struct{}
+	mu        sync.Mutex
+	sigs      [][2]string // (sender name, reason)
+	gate      chan struct{}
+	pre, post atomic.Int64
+	failWith  int // > 0: on a PanicSignal the handler fails itself with an error of this type (escalation chains)
 }
 
-func (p *c07Parent) PreStart(*Context) error { return nil }
-func (p *c07Parent) PostStop(*Context) error { return nil }
+func (p *c07Parent) PreStart(*Context) error { p.pre.Add(1); return nil }
+func (p *c07Parent) PostStop(*Context) error { p.post.Add(1); return nil }
 func (p *c07Parent) Receive(ctx *ReceiveContext) {
 	switch m := ctx.Message().(type) {
 	case *PanicSignal:
@@ -240,6 +248,9 @@ func (p *c07Parent) Receive(ctx *ReceiveContext) {
 		p.mu.Lock()
 		p.sigs = append(p.sigs, [2]string{name, m.Reason()})
 		p.mu.Unlock()
+		if p.failWith > 0 {
+			ctx.Err(c07Err(p.failWith))
+		}
 	case *c07Ping:
 		if p.gate != nil {
 			<-p.gate
@@ -264,6 +275,7 @@ type c07Step struct {
 }
 type c07Case struct {
 	Id    int
+	Top   bool // children are spawned directly under the user guardian (one-for-one only)
 	N     int
 	Cfg   [][]c07Opt // one option list per child; a single list means shared by all
 	Steps []c07Step
@@ -314,6 +326,9 @@ func (f *c07Family) observe() ([][]int64, [][2]int) {
 		out[i] = []int64{c07Status(p), a.pre.Load(), a.mem.Load(), a.post.Load(), p.restartCount.Load(), p.consecutiveFaults.Load()}
 	}
 	var esc [][2]int
+	if f.pact == nil {
+		return out, esc
+	}
 	for _, s := range f.pact.signals() {
 		idx := -1
 		for i, n := range f.names {
@@ -407,10 +422,15 @@ func c07RunCase(ctx context.Context, sys ActorSystem, cs *c07Case, base time.Tim
 	res := c07Result{Id: cs.Id}
 	f := &c07Family{pact: &c07Parent{}, base: base}
 	var err error
-	f.parent, err = sys.Spawn(ctx, fmt.Sprintf("c07f%dp", cs.Id), f.pact, WithLongLived())
-	if err != nil {
-		res.Err = "spawn parent: " + err.Error()
-		return res
+	if cs.Top {
+		f.pact = nil
+		f.parent = sys.(*actorSystem).getUserGuardian()
+	} else {
+		f.parent, err = sys.Spawn(ctx, fmt.Sprintf("c07f%dp", cs.Id), f.pact, WithLongLived())
+		if err != nil {
+			res.Err = "spawn parent: " + err.Error()
+			return res
+		}
 	}
 	var shared *supervisor.Supervisor
 	if len(cs.Cfg) == 1 {
@@ -423,7 +443,12 @@ func c07RunCase(ctx context.Context, sys ActorSystem, cs *c07Case, base time.Tim
 		}
 		a := &c07Child{}
 		name := fmt.Sprintf("c07f%dc%d", cs.Id, i)
-		p, err := f.parent.SpawnChild(ctx, name, a, WithSupervisor(sup), WithLongLived())
+		var p *PID
+		if cs.Top {
+			p, err = sys.Spawn(ctx, name, a, WithSupervisor(sup), WithLongLived())
+		} else {
+			p, err = f.parent.SpawnChild(ctx, name, a, WithSupervisor(sup), WithLongLived())
+		}
 		if err != nil {
 			res.Err = "spawn child: " + err.Error()
 			return res
@@ -446,6 +471,18 @@ func c07RunCase(ctx context.Context, sys ActorSystem, cs *c07Case, base time.Tim
 		case "fail":
 			if e := Tell(ctx, f.pids[st.Child], &c07Fail{Kind: st.Kind, Ety: st.Ety}); e != nil {
 				o.SendErr = e.Error()
+			}
+		case "fail2":
+			// two failing messages handled back to back: the second failure signal reaches the supervision
+			// consumer while the actor is already suspended (or resumed) by the first
+			gate := make(chan struct{})
+			if e := Tell(ctx, f.pids[st.Child], &c07Block{gate: gate}); e != nil {
+				o.SendErr = e.Error()
+				close(gate)
+			} else {
+				_ = Tell(ctx, f.pids[st.Child], &c07Fail{Kind: st.Kind, Ety: st.Ety})
+				_ = Tell(ctx, f.pids[st.Child], &c07Fail{Kind: st.Kind, Ety: st.Ety})
+				close(gate)
 			}
 		case "reinstate":
 			if e := f.parent.Reinstate(f.pids[st.Child]); e != nil {
@@ -612,5 +649,199 @@ func TestVerifC07Overlap(t *testing.T) {
 		time.Sleep(30 * time.Millisecond)
 		after, _, _, _ := f.settle(st, time.Second, 60*time.Millisecond)
 		w.put(c07OverlapOut{Before: before, After: after, Budget: int64(sup.MaxRetries()), WindowNs: int64(sup.Timeout())})
+	}
+}
+
+// ---------------------------------------------------------------- escalation chains: G -> P -> children
+
+type c07ChainStep struct {
+	Op       string // fail | ping
+	Child    int
+	Kind     int
+	Ety      int
+	Want     [][]int64 // children: status, gen, posts
+	WantP    []int64   // P: status, gen, posts
+	WantEsc  int       // PanicSignals seen by P
+	WantEscG int       // PanicSignals seen by G
+	HoldMs   int
+}
+type c07ChainCase struct {
+	Id    int
+	N     int
+	CfgP  []c07Opt // P's supervisor (applied by G)
+	Cfg   []c07Opt // the children's supervisor (applied by P)
+	EP    int      // the error type P fails with when it receives a PanicSignal
+	Steps []c07ChainStep
+}
+type c07ChainObs struct {
+	Children [][]int64
+	P        []int64 // status, gen, posts, restarts, faults
+	Esc      [][2]int
+	EscG     [][2]int
+	Matched  bool
+	SendErr  string
+}
+type c07ChainResult struct {
+	Id    int
+	Steps []c07ChainObs
+	Err   string
+}
+
+func TestVerifC07Chain(t *testing.T) {
+	cases := verifReadJSONL[c07ChainCase](t, "c07_chain_in.jsonl")
+	w := newVerifWriter(t, "c07_chain_out.jsonl")
+	defer w.close()
+	ctx := context.Background()
+	sys, err := NewActorSystem("verifC07c", WithLogger(log.DiscardLogger))
+	if err != nil {
+		t.Fatal(err)
+	}
+	if err := sys.Start(ctx); err != nil {
+		t.Fatal(err)
+	}
+	defer func() { _ = sys.Stop(ctx) }()
+	time.Sleep(50 * time.Millisecond)
+	results := make([]c07ChainResult, len(cases))
+	var wg sync.WaitGroup
+	sem := make(chan struct{}, verifEnvInt("VERIF_C07_PAR", 6))
+	for ci := range cases {
+		wg.Add(1)
+		sem <- struct{}{}
+		go func(ci int) {
+			defer wg.Done()
+			defer func() { <-sem }()
+			cs := &cases[ci]
+			res := c07ChainResult{Id: cs.Id}
+			gact := &c07Parent{}
+			g, err := sys.Spawn(ctx, fmt.Sprintf("c07k%dg", cs.Id), gact, WithLongLived())
+			if err != nil {
+				res.Err = err.Error()
+				results[ci] = res
+				return
+			}
+			f := &c07Family{pact: &c07Parent{failWith: cs.EP}, base: time.Now()}
+			pname := fmt.Sprintf("c07k%dp", cs.Id)
+			f.parent, err = g.SpawnChild(ctx, pname, f.pact, WithSupervisor(c07Build(cs.CfgP)), WithLongLived())
+			if err != nil {
+				res.Err = err.Error()
+				results[ci] = res
+				return
+			}
+			sup := c07Build(cs.Cfg)
+			for i := 0; i < cs.N; i++ {
+				a := &c07Child{}
+				name := fmt.Sprintf("c07k%dc%d", cs.Id, i)
+				p, err := f.parent.SpawnChild(ctx, name, a, WithSupervisor(sup), WithLongLived())
+				if err != nil {
+					res.Err = err.Error()
+					results[ci] = res
+					return
+				}
+				f.pids, f.acts, f.names = append(f.pids, p), append(f.acts, a), append(f.names, name)
+			}
+			time.Sleep(2 * time.Millisecond)
+			observe := func() c07ChainObs {
+				o := c07ChainObs{}
+				o.Children, o.Esc = f.observe()
+				o.P = []int64{c07Status(f.parent), f.pact.pre.Load(), f.pact.post.Load(), f.parent.restartCount.Load(), f.parent.consecutiveFaults.Load()}
+				for _, s := range gact.signals() {
+					idx := -1
+					if s[0] == pname {
+						idx = 0
+					}
+					o.EscG = append(o.EscG, [2]int{idx, c07EtyOfReason(s[1])})
+				}
+				return o
+			}
+			same := func(a, b c07ChainObs) bool {
+				if !c07Equal(a.Children, b.Children) || len(a.Esc) != len(b.Esc) || len(a.EscG) != len(b.EscG) {
+					return false
+				}
+				for i := range a.P {
+					if a.P[i] != b.P[i] {
+						return false
+					}
+				}
+				return true
+			}
+			matches := func(o c07ChainObs, st *c07ChainStep) bool {
+				if len(o.Esc) != st.WantEsc || len(o.EscG) != st.WantEscG {
+					return false
+				}
+				if len(st.WantP) == 3 && (o.P[0] != st.WantP[0] || o.P[1] != st.WantP[1] || o.P[2] != st.WantP[2]) {
+					return false
+				}
+				for i, w := range st.Want {
+					c := o.Children[i]
+					if c[0] != w[0] || c[1] != w[1] || c[3] != w[2] {
+						return false
+					}
+				}
+				return true
+			}
+			for si := range cs.Steps {
+				st := &cs.Steps[si]
+				sendErr := ""
+				switch st.Op {
+				case "fail":
+					if e := Tell(ctx, f.pids[st.Child], &c07Fail{Kind: st.Kind, Ety: st.Ety}); e != nil {
+						sendErr = e.Error()
+					}
+				case "ping":
+					before, _ := f.observe()
+					sent := make([]bool, len(f.pids))
+					for i, p := range f.pids {
+						if Tell(ctx, p, &c07Ping{}) == nil {
+							sent[i] = true
+						}
+					}
+					dl := time.Now().Add(2 * time.Second)
+					for time.Now().Before(dl) {
+						now, _ := f.observe()
+						ok := true
+						for i := range sent {
+							if sent[i] && now[i][2] == before[i][2] && now[i][1] == before[i][1] {
+								ok = false
+							}
+						}
+						if ok {
+							break
+						}
+						time.Sleep(500 * time.Microsecond)
+					}
+				}
+				hold := time.Duration(st.HoldMs) * time.Millisecond
+				if hold <= 0 {
+					hold = 20 * time.Millisecond
+				}
+				deadline := time.Now().Add(2 * time.Second)
+				cur := observe()
+				tChange := time.Now()
+				for {
+					if o2 := observe(); !same(o2, cur) {
+						cur, tChange = o2, time.Now()
+					}
+					if matches(cur, st) || time.Now().After(deadline) {
+						break
+					}
+					time.Sleep(300 * time.Microsecond)
+				}
+				stopAt := time.Now().Add(hold*8 + 200*time.Millisecond)
+				for time.Since(tChange) < hold && time.Now().Before(stopAt) {
+					time.Sleep(500 * time.Microsecond)
+					if o2 := observe(); !same(o2, cur) {
+						cur, tChange = o2, time.Now()
+					}
+				}
+				cur.Matched = matches(cur, st)
+				cur.SendErr = sendErr
+				res.Steps = append(res.Steps, cur)
+			}
+			results[ci] = res
+		}(ci)
+	}
+	wg.Wait()
+	for i := range results {
+		w.put(results[i])
 	}
 }
